@@ -6,6 +6,7 @@ from jaqalpaq.core.block import BlockStatement, LoopStatement
 from jaqalpaq.core.gatedef import GateDefinition
 from jaqalpaq.error import JaqalError
 from jaqalpaq.core.macro import Macro
+from jaqalpaq.core.gate import GateStatement
 
 
 def expand_subcircuits(circuit, prepare_def=None, measure_def=None):
@@ -69,6 +70,9 @@ class SubcircuitExpander(Visitor):
 
     def visit_Circuit(self, circuit):
         new_circuit = Circuit(native_gates=circuit.native_gates)
+        # Calls are re-bound to the rebuilt macros as we go (a macro only
+        # calls macros defined before it).
+        self.new_macros = new_circuit.macros
         for name, macro in circuit.macros.items():
             new_circuit.macros[name] = self.visit(macro)
         new_circuit.constants.update(circuit.constants)
@@ -79,6 +83,14 @@ class SubcircuitExpander(Visitor):
 
     def visit_Macro(self, macro):
         return Macro(macro.name, macro.parameters, self.visit(macro.body))
+
+    def visit_GateStatement(self, gate):
+        new_macro = getattr(self, "new_macros", {}).get(gate.name)
+        if new_macro is not None and isinstance(gate.gate_def, Macro):
+            # Keep the call pointing at the macro of the new circuit, whose
+            # body has had its subcircuits expanded.
+            return GateStatement(new_macro, gate.parameters)
+        return gate
 
     def visit_LoopStatement(self, loop):
         return LoopStatement(loop.iterations, self.visit(loop.statements))
